@@ -342,7 +342,15 @@ static void formCase(vh::Rng& rng) {
     } else if (r < 42) f.Erase(pick());
     else if (r < 55) f.SetExpressionFor(pick(), rng.pick(defsPool()));
     else if (r < 63) f.SetTermFor(pick(), rng.pick(texts));
-    else if (r < 70) f.SetTermFormFor(pick(), rng.pick(texts), lang::Morphology{ rng.chance(1, 2) ? "datv,sing" : "gent,plur" });
+    else if (r < 70) {
+      // several manual forms per term, often spelled the same under different tags
+      static const std::vector<std::string> tagSets = { "datv,sing", "gent,plur", "accs,plur", "nomn,plur", "ablt,sing", "gent,sing" };
+      static const std::vector<std::string> spellings = { "forma", "formy", "form" };
+      const auto uid = pick();
+      const int n = rng.range(1, 3);
+      for (int q = 0; q < n; ++q)
+        f.SetTermFormFor(uid, rng.chance(2, 3) ? rng.pick(spellings) : rng.pick(texts), lang::Morphology{ rng.pick(tagSets) });
+    }
     else if (r < 78) f.SetDefinitionFor(pick(), rng.pick(texts));
     else if (r < 84) f.SetConventionFor(pick(), rng.chance(1, 2) ? "conv X1" : "\xD0\xBA\xD0\xBE\xD0\xBD\xD0\xB2");
     else if (r < 90) f.Mods().Track(pick(), TrackingFlags{ rng.chance(1, 2), rng.chance(1, 2), rng.chance(1, 2), rng.chance(1, 2) });
